@@ -11,6 +11,7 @@ def tableOpt (tbl : List (String × J)) : String → Option String :=
   fun k => match lookup k tbl with | some (.str v) => some v | _ => none
 
 def extOf (e : J) : Ext where
+  resolveRemote := fun r => lookup r (e.getObj "resolve")
   mkRef := tableOpt (e.getObj "mkRef")
   jsonName := tableOpt (e.getObj "jsonName")
   goName := tableOpt (e.getObj "goName")
@@ -60,6 +61,7 @@ def runPhase (fc : Facts) (x : Ext) (o : Opts) (name : String) (s : St) : Option
   | "nameInlinedSchemas" => some (nameInlinedSchemas fc x o s)
   | "namePointers" => some (namePointers fc x o s)
   | "removeUnused" => some (removeUnused fc x s)
+  | "importReferences" => some ((importReferences fc x o 32 s).bind fun r => .ok (syncNewRefs r))
   | "stripOAIGen" => some ((stripOAIGen fc x s).bind fun r => .ok r.1)
   | _ => none
 
@@ -90,7 +92,7 @@ def run (fc : Facts) (inp : J) : J :=
   .arr ((inp.getArr "steps").map fun st =>
     let s : St := { Flatten.initial fc ((st.get? "doc").getD .null) with ctx := ctxOf ((st.get? "ctx").getD .null) }
     if st.getStr "name" = "stripOAIGen" then stripAlternatives fc x s else
-    if st.getStr "name" = "pipeline" then JsonIO.outcome encSt (flattenLocal fc x o 16 s) else
+    if st.getStr "name" = "pipeline" then JsonIO.outcome encSt (flatten fc x o 32 s) else
     match runPhase fc x o (st.getStr "name") s with
     | some r => JsonIO.outcome encSt r
     | none => .obj [("notModelled", .str (st.getStr "name"))])
